@@ -318,3 +318,116 @@ Proof.
   - intros [H _]. vm_compute in H. discriminate.
   - intros [_ [_ [H _]]]. apply H. reflexivity.
 Qed.
+
+(** * a policy on a dotted path of names: FieldXValues("n1.n2...nk") *)
+Fixpoint policy_path (path : list string) (h : N) : value :=
+  match path with
+  | [] => policy_leaf h
+  | n :: r => VSub [(n, (n, policy_path r h))] None
+  end.
+
+Lemma policy_path_single n h : policy_path [n] h = policy_tree n h.
+Proof. reflexivity. Qed.
+
+Lemma ft_child_path n r h : name_ok n ->
+  ft_child (policy_path (n :: r) h) n (-1) = Ok (policy_path r h).
+Proof.
+  intros [Hp [Hne _]].
+  unfold ft_child, get_value, get_path, opts_path_idx, parse_path_idx, default_popts. cbn [p_sep p_maxIdx p_numKeys p_escape].
+  rewrite (neq_eqb _ _ Hne). unfold parse_path. cbn [String.eqb orb]. rewrite Hp. cbn [Z.leb Z.compare].
+  cbn [get_path_go get_field policy_path to_cfg dict_get]. rewrite String.eqb_refl. cbn [path_join bind snd].
+  destruct r as [|n2 r2]; reflexivity.
+Qed.
+
+Lemma ft_child_path_other n r h k : name_ok k -> k <> n ->
+  exists e p, ft_child (policy_path (n :: r) h) k (-1) = Err e p.
+Proof.
+  intros [Hp [Hne _]] Hk.
+  unfold ft_child, get_value, get_path, opts_path_idx, parse_path_idx, default_popts. cbn [p_sep p_maxIdx p_numKeys p_escape].
+  rewrite (neq_eqb _ _ Hne). unfold parse_path. cbn [String.eqb orb]. rewrite Hp. cbn [Z.leb Z.compare].
+  cbn [get_path_go get_field policy_path to_cfg dict_get]. rewrite (neq_eqb _ _ Hk). cbn. eauto.
+Qed.
+
+Lemma ft_child_path_wild n r h : n <> "**" ->
+  exists e p, ft_child (policy_path (n :: r) h) "**" (-1) = Err e p.
+Proof.
+  intro Hk.
+  unfold ft_child, get_value, get_path, opts_path_idx, parse_path_idx, default_popts. cbn [p_sep p_maxIdx p_numKeys p_escape].
+  unfold parse_path. cbn [String.eqb Ascii.eqb Bool.eqb orb andb].
+  change (parse_field "**" defaultMaxIdx false) with (FName "**"). cbn [Z.leb Z.compare].
+  cbn [get_path_go get_field policy_path to_cfg dict_get].
+  assert (String.eqb "**" n = false) as E by (apply neq_eqb; intro X; apply Hk; symmetry; exact X).
+  rewrite E. cbn. eauto.
+Qed.
+
+(* an inner node of the path carries no handling of its own *)
+Lemma ft_handling_inner n r h : n <> "*" ->
+  exists e p, ft_handling (policy_path (n :: r) h) = Err e p.
+Proof.
+  intro Hn. unfold ft_handling, get_value, get_path, opts_path_idx, parse_path_idx, default_popts.
+  cbn [p_sep p_maxIdx p_numKeys p_escape]. unfold parse_path. cbn [String.eqb Ascii.eqb Bool.eqb orb andb].
+  change (parse_field "*" defaultMaxIdx false) with (FName "*"). cbn [Z.leb Z.compare].
+  cbn [get_path_go get_field policy_path to_cfg dict_get].
+  assert (String.eqb "*" n = false) as E by (apply neq_eqb; intro X; apply Hn; symmetry; exact X).
+  rewrite E. cbn. eauto.
+Qed.
+
+Lemma vsize_pos v : exists fu, vsize v = S fu.
+Proof. destruct v; simpl; eauto. Qed.
+
+(* descending along the path keeps the global handling and the rest of the path *)
+Theorem override_along_path h n n2 r h' : name_ok n -> name_ok n2 ->
+  field_opts_override {| m_h := h; m_ft := Some (policy_path (n :: n2 :: r) h') |} n (-1)
+  = Ok {| m_h := h; m_ft := Some (policy_path (n2 :: r) h') |}.
+Proof.
+  intros Hn Hn2. unfold field_opts_override. cbn [m_ft m_h].
+  destruct (vsize_pos (policy_path (n :: n2 :: r) h')) as [fu V]. rewrite V.
+  cbn [field_handling]. rewrite (ft_child_path n (n2 :: r) h' Hn). cbn [soft bind].
+  destruct Hn2 as [_ [_ [Hs2 _]]]. rewrite (soft_err _ (ft_handling_inner n2 r h' Hs2)). cbn [bind].
+  destruct Hn as [_ [_ [_ Hw]]].
+  rewrite (soft_err _ (ft_child_path_wild n (n2 :: r) h' Hw)). cbn [bind].
+  unfold include_wildcard. rewrite (soft_err _ (ft_child_path_wild n (n2 :: r) h' Hw)). reflexivity.
+Qed.
+
+(* leaving the path drops the tree: the global policy alone remains *)
+Theorem override_off_path h n r h' k : name_ok k -> k <> n -> n <> "**" ->
+  field_opts_override {| m_h := h; m_ft := Some (policy_path (n :: r) h') |} k (-1)
+  = Ok {| m_h := h; m_ft := None |}.
+Proof.
+  intros Hk Hne Hw. unfold field_opts_override. cbn [m_ft m_h].
+  destruct (vsize_pos (policy_path (n :: r) h')) as [fu V]. rewrite V.
+  cbn [field_handling]. rewrite (soft_err _ (ft_child_path_other n r h' k Hk Hne)). cbn [bind].
+  rewrite (soft_err _ (ft_child_path_wild n r h' Hw)). cbn [bind].
+  unfold include_wildcard. rewrite (soft_err _ (ft_child_path_wild n r h' Hw)). cbn [bind].
+  destruct Hk as [_ [_ [Hs _]]]. rewrite (neq_eqb _ _ Hs). reflexivity.
+Qed.
+
+(* C16 for a policy on a dotted path of names, all trees: walking down the path keeps the
+   global policy until the last name, where the named policy takes over for everything below;
+   stepping off the path at any depth leaves the global-policy merge *)
+Theorem path_policy h h' : (h' < 256)%N -> forall path, Forall name_ok path -> path <> [] ->
+  match path with
+  | [] => True
+  | n :: r =>
+    (forall old v,
+        o' <- field_opts_override {| m_h := h; m_ft := Some (policy_path path h') |} n (-1) ;;
+        merge_full o' old v
+        = match r with
+          | [] => merge_plain (plain_opts h') old v
+          | _ => merge_full {| m_h := h; m_ft := Some (policy_path r h') |} old v
+          end) /\
+    (forall k old v, name_ok k -> k <> n ->
+        o' <- field_opts_override {| m_h := h; m_ft := Some (policy_path path h') |} k (-1) ;;
+        merge_full o' old v
+        = merge_plain {| m_h := h; m_ft := None |} old v)
+  end.
+Proof.
+  intros Hh path F Hne. destruct path as [|n r]; [exact I|].
+  inversion F as [|? ? Hn Fr]; subst. split.
+  - intros old v. destruct r as [|n2 r2].
+    + rewrite policy_path_single. rewrite (override_at_named_field h n h' Hn Hh). cbn [bind].
+      apply named_policy_is_global_below.
+    + inversion Fr as [|? ? Hn2 _]; subst. rewrite (override_along_path h n n2 r2 h' Hn Hn2). reflexivity.
+  - intros k old v Hk Hkn. destruct Hn as [_ [_ [_ Hw]]].
+    rewrite (override_off_path h n r h' k Hk Hkn Hw). cbn [bind]. apply merge_full_no_tree. reflexivity.
+Qed.
